@@ -24,6 +24,7 @@ mod c19;
 mod kindwire;
 mod c32;
 mod c33;
+mod c34;
 mod c30;
 mod c31;
 mod gens;
@@ -73,6 +74,7 @@ const EXECS: &[Exec] = &[
     c33::exec,
     c30::exec,
     c31::exec,
+    c34::exec,
 ];
 
 /// Run one case (`op` + inputs) on the implementation: the first module that recognises the op answers.
@@ -120,6 +122,7 @@ fn generate(prop: &str, sink: &mut sink::Sink, rng: &mut rng::Rng, n: u64) -> bo
         "C33" => c33::generate(sink, rng, n),
         "C30" => c30::generate(sink, rng, n),
         "C31" => c31::generate(sink, rng, n),
+        "C34" => c34::generate(sink, rng, n),
         _ => return false,
     }
     true
